@@ -193,3 +193,64 @@ func freshSlices(fd *ast.FuncDecl, info *types.Info) map[*types.Var]bool {
 	}
 	return out
 }
+
+// freshFieldAssign: one statement `root.f… = <fresh slice expression>` of a function, with the block it stands in.
+type freshFieldAssign struct {
+	root  types.Object
+	path  string // source text of the assigned selector (root.f.g)
+	pos   token.Pos
+	block *ast.BlockStmt
+}
+
+// freshFieldAssigns lists the assignments of fresh slices (append([]T(nil), …), make, composite literal) to fields of
+// local variables, each with its innermost enclosing block.
+func freshFieldAssigns(fd *ast.FuncDecl, info *types.Info) []freshFieldAssign {
+	var out []freshFieldAssign
+	var stack []*ast.BlockStmt
+	var walk func(n ast.Node)
+	walk = func(n ast.Node) {
+		ast.Inspect(n, func(m ast.Node) bool {
+			switch x := m.(type) {
+			case *ast.BlockStmt:
+				if x == n {
+					return true
+				}
+				stack = append(stack, x)
+				for _, st := range x.List {
+					walk(st)
+				}
+				stack = stack[:len(stack)-1]
+				return false
+			case *ast.AssignStmt:
+				if len(x.Lhs) == len(x.Rhs) && len(stack) > 0 {
+					for i, l := range x.Lhs {
+						sel, ok := l.(*ast.SelectorExpr)
+						if !ok || !freshExpr(x.Rhs[i], info, map[*types.Var]bool{}, fd) {
+							continue
+						}
+						if id, _ := rootIdent(sel); id != nil {
+							out = append(out, freshFieldAssign{root: info.ObjectOf(id), path: exprString(sel), pos: x.Pos(), block: stack[len(stack)-1]})
+						}
+					}
+				}
+			}
+			return true
+		})
+	}
+	stack = append(stack, fd.Body)
+	for _, st := range fd.Body.List {
+		walk(st)
+	}
+	return out
+}
+
+// dominatedByFreshAssign: some fresh assignment to exactly this selector precedes pos in a block that encloses pos
+// (so it is executed on every path that reaches pos, loops and gotos aside).
+func dominatedByFreshAssign(as []freshFieldAssign, root types.Object, path string, pos token.Pos) bool {
+	for _, a := range as {
+		if a.root == root && a.path == path && a.pos < pos && a.block.Pos() <= pos && pos < a.block.End() {
+			return true
+		}
+	}
+	return false
+}
